@@ -1,1 +1,1371 @@
-/- C06 — theorems (placeholder until the property is built). -/
+/-
+  C06 — Refinement moves a disparity by at most half a sample, never for the worse.
+
+  Theorems about the executable model `Model/Refinement.lean` (`vfit`, `quadratic`, `refinePixel`,
+  `loopRefinement`) and its executable specification (`classify`, `clauses`, `specOK`, `specGrid`).
+  Exact rational arithmetic; no bound on sizes, costs, intervals or maps.
+-/
+import PandoraModel.Model.Refinement
+import PandoraModel.Properties.Flags
+import PandoraModel.Generated.Constants
+import PandoraModel.Generated.RefineCC
+import Mathlib.Tactic.Linarith
+import Mathlib.Tactic.Ring
+import Mathlib.Tactic.FieldSimp
+import Mathlib.Algebra.Order.Field.Basic
+
+namespace Pandora.C06
+open Pandora Pandora.Refinement
+
+theorem ratAbs_eq_abs (x : ℚ) : ratAbs x = |x| := by
+  unfold ratAbs
+  split
+  · rename_i h; rw [abs_of_neg h]
+  · rename_i h; rw [abs_of_nonneg (not_lt.mp h)]
+
+theorem stop_cond_iff (isMax : Bool) (a0 c1 a2 : ℚ) :
+    (sgn isMax c1 > sgn isMax a0 ∨ sgn isMax c1 > sgn isMax a2) ↔ isExtremum isMax a0 c1 a2 = false := by
+  cases isMax <;> simp [sgn, isExtremum, notWorse] <;> constructor
+  · rintro (h | h) h' <;> linarith
+  · intro h; by_cases h' : c1 ≤ a0
+    · exact Or.inr (h h')
+    · exact Or.inl (not_le.mp h')
+  · rintro (h | h) h' <;> linarith
+  · intro h; by_cases h' : a0 ≤ c1
+    · exact Or.inr (h h')
+    · exact Or.inl (not_le.mp h')
+
+/-- what `vfit` answers on three numbers, by cases -/
+theorem vfit_num (isMax : Bool) (a0 c1 a2 : ℚ) :
+    vfit isMax (.num a0) c1 (.num a2) =
+      if isExtremum isMax a0 c1 a2 = false then .ok ⟨0, c1, stoppedBit⟩
+      else
+        let a := if sgn isMax a0 > sgn isMax a2 then a0 - c1 else a2 - c1
+        if |a| < tiny then .ok ⟨0, c1, 0⟩
+        else .ok ⟨(a0 - a2) / (2 * a), a * ((a0 - a2) / (2 * a) - 1) + a2, 0⟩ := by
+  simp only [vfit, stop_cond_iff, ratAbs_eq_abs]
+
+theorem tiny_pos : (0 : ℚ) < tiny := by unfold tiny; norm_num
+
+theorem ratio_bound (n a : ℚ) (ha : a ≠ 0) (h : |n| ≤ |a|) : -(1/2) ≤ n / (2 * a) ∧ n / (2 * a) ≤ 1/2 := by
+  have hpos : 0 < |a| := abs_pos.mpr ha
+  have : |n / (2 * a)| ≤ 1/2 := by
+    rw [abs_div, abs_mul, abs_two, div_le_iff₀ (by positivity)]
+    linarith
+  have := abs_le.mp this
+  constructor <;> linarith [this.1, this.2]
+
+theorem abs_le_abs' (n b : ℚ) (h : (n ≤ b ∧ -b ≤ n) ∨ (n ≤ -b ∧ b ≤ n)) : |n| ≤ |b| := by
+  rcases h with ⟨h1, h2⟩ | ⟨h1, h2⟩
+  · exact abs_le_abs h1 (by linarith)
+  · rw [← abs_neg b]; exact abs_le_abs h1 (by linarith)
+
+/-- the V-fit shift is at most half a sample -/
+theorem vfit_shift_le_half (isMax : Bool) (c0 c2 : Val) (c1 : ℚ) (r : MOut)
+    (h : vfit isMax c0 c1 c2 = .ok r) : -(1/2) ≤ r.shift ∧ r.shift ≤ 1/2 := by
+  cases c0 with
+  | nan => simp [vfit] at h; subst h; norm_num
+  | num a0 =>
+  cases c2 with
+  | nan => simp [vfit] at h; subst h; norm_num
+  | num a2 =>
+    have ht := tiny_pos
+    cases isMax <;> simp only [vfit, sgn, ratAbs_eq_abs, Bool.false_eq_true, ↓reduceIte] at h <;>
+      split_ifs at h <;> simp only [Res.ok.injEq] at h <;> subst h <;> simp only <;> try norm_num
+    all_goals
+      rename_i hstop hcmp hnt
+      simp only [not_or, not_lt, gt_iff_lt] at hstop hcmp
+      apply ratio_bound
+      · intro h0; apply hnt; rw [h0, abs_zero]; exact ht
+      · apply abs_le_abs'
+        first
+          | (left; constructor <;> linarith [hstop.1, hstop.2])
+          | (right; constructor <;> linarith [hstop.1, hstop.2])
+
+
+/-! ### closeness with tolerance 0 is equality -/
+theorem close_zero (a b : ℚ) : close a b 0 = true ↔ a = b := by
+  simp only [close, Bool.and_eq_true, decide_eq_true_eq]
+  constructor
+  · rintro ⟨h1, h2⟩; linarith
+  · rintro rfl; simp
+
+theorem close_of_eq (a b tol : ℚ) (ht : 0 ≤ tol) (h : a = b) : close a b tol = true := by
+  subst h; simp [close, ht]
+
+/-- a similarity measure is the cost `-c`: same shift, opposite fitted value -/
+def negOut : Res MOut → Res MOut
+  | .ok r => .ok ⟨r.shift, -r.cost, r.flag⟩
+  | .err e => .err e
+
+theorem vfit_max (a0 c1 a2 : ℚ) :
+    vfit true (.num a0) c1 (.num a2) = negOut (vfit false (.num (-a0)) (-c1) (.num (-a2))) := by
+  have e1 : |(-a0 - -c1)| = |a0 - c1| := by rw [show (-a0 - -c1) = -(a0 - c1) by ring, abs_neg]
+  have e2 : |(-a2 - -c1)| = |a2 - c1| := by rw [show (-a2 - -c1) = -(a2 - c1) by ring, abs_neg]
+  by_cases hc : -a0 > -a2 <;>
+    simp only [vfit, sgn, ratAbs_eq_abs, Bool.false_eq_true, ↓reduceIte, hc, e1, e2] <;>
+    split_ifs <;> simp only [negOut, neg_neg, Res.ok.injEq, MOut.mk.injEq, and_true]
+  all_goals
+    constructor
+    · rw [show (-a0 - -a2) = -(a0 - a2) by ring]
+      first
+        | rw [show 2 * (-a0 - -c1) = -(2 * (a0 - c1)) by ring, neg_div_neg_eq]
+        | rw [show 2 * (-a2 - -c1) = -(2 * (a2 - c1)) by ring, neg_div_neg_eq]
+    · rw [show (-a0 - -a2) = -(a0 - a2) by ring]
+      first
+        | (rw [show 2 * (-a0 - -c1) = -(2 * (a0 - c1)) by ring, neg_div_neg_eq]; ring)
+        | (rw [show 2 * (-a2 - -c1) = -(2 * (a2 - c1)) by ring, neg_div_neg_eq]; ring)
+
+theorem quadratic_max (ff : Bool) (a0 c1 a2 : ℚ) :
+    quadratic ff true (.num a0) c1 (.num a2) = negOut (quadratic ff false (.num (-a0)) (-c1) (.num (-a2))) := by
+  have e1 : (2 * ((-a0 - 2 * -c1 + -a2) / 2) = 0) ↔ (2 * ((a0 - 2 * c1 + a2) / 2) = 0) := by
+    constructor <;> intro h <;> linarith
+  have e2 : -((-a2 - -a0) / 2) / (2 * ((-a0 - 2 * -c1 + -a2) / 2)) = -((a2 - a0) / 2) / (2 * ((a0 - 2 * c1 + a2) / 2)) := by
+    rw [show -((-a2 - -a0) / 2) = -(-((a2 - a0) / 2)) by ring,
+        show (2 * ((-a0 - 2 * -c1 + -a2) / 2)) = -(2 * ((a0 - 2 * c1 + a2) / 2)) by ring, neg_div_neg_eq]
+  cases ff <;> simp only [quadratic, sgn, Bool.false_eq_true, ↓reduceIte, e1, e2] <;>
+    split_ifs <;> simp only [negOut, neg_neg, Res.ok.injEq, MOut.mk.injEq, and_true, true_and] <;> ring
+
+theorem close_iff (a b tol : ℚ) : close a b tol = true ↔ |a - b| ≤ tol := by
+  simp only [close, Bool.and_eq_true, decide_eq_true_eq, abs_le]
+  constructor <;> rintro ⟨h1, h2⟩ <;> constructor <;> linarith
+
+/-- the slope magnitude of the symmetric V (the steeper side), cost to be minimised -/
+def vslope (a0 c1 a2 : ℚ) : ℚ := if a2 - c1 ≤ a0 - c1 then a0 - c1 else a2 - c1
+
+theorem vApexMin_iff (a0 c1 a2 x y tol : ℚ) :
+    vApexMin a0 c1 a2 x y tol = true ↔
+      |y + vslope a0 c1 a2 * |(-1) - x| - a0| ≤ tol ∧ |y + vslope a0 c1 a2 * |0 - x| - c1| ≤ tol
+        ∧ |y + vslope a0 c1 a2 * |1 - x| - a2| ≤ tol := by
+  simp only [vApexMin, vslope, Bool.and_eq_true, close_iff, ratAbs_eq_abs, and_assoc]
+
+theorem vfit_min_spec (a0 c1 a2 tol : ℚ) (h0 : c1 ≤ a0) (h2 : c1 ≤ a2) (htol : 0 ≤ tol)
+    (hnt : tiny ≤ tol ∨ vslope a0 c1 a2 = 0 ∨ tiny ≤ vslope a0 c1 a2) :
+    ∃ r, vfit false (.num a0) c1 (.num a2) = .ok r ∧ r.flag = 0 ∧ -(1/2) ≤ r.shift ∧ r.shift ≤ 1/2
+      ∧ r.cost ≤ c1 ∧ vApexMin a0 c1 a2 r.shift r.cost tol = true := by
+  have ht := tiny_pos
+  have hstop : ¬(c1 > a0 ∨ c1 > a2) := by push Not; exact ⟨h0, h2⟩
+  by_cases hc : a0 > a2
+  · have hm : vslope a0 c1 a2 = a0 - c1 := by unfold vslope; rw [if_pos (by linarith)]
+    by_cases hty : |a0 - c1| < tiny
+    · refine ⟨⟨0, c1, 0⟩, ?_, rfl, by norm_num, by norm_num, le_refl _, ?_⟩
+      · simp only [vfit, sgn, ratAbs_eq_abs, Bool.false_eq_true, ↓reduceIte, hstop, hc, hty]
+      · rw [vApexMin_iff, hm]
+        have hpos : 0 ≤ a0 - c1 := by linarith
+        rw [abs_of_nonneg hpos] at hty
+        have htl : a0 - c1 ≤ tol := by
+          rcases hnt with h | h | h
+          · linarith
+          · rw [hm] at h; linarith
+          · rw [hm] at h; linarith
+        simp only [sub_zero, abs_neg, abs_one, abs_zero, mul_one, mul_zero, add_zero, sub_self]
+        refine ⟨?_, htol, ?_⟩
+        · rw [show c1 + (a0 - c1) - a0 = 0 by ring, abs_zero]; exact htol
+        · rw [abs_le]; constructor <;> linarith
+    · have hne : a0 - c1 ≠ 0 := by intro h; apply hty; rw [h, abs_zero]; exact ht
+      have hpos : 0 < a0 - c1 := lt_of_le_of_ne (by linarith) (Ne.symm hne)
+      refine ⟨⟨(a0 - a2) / (2 * (a0 - c1)), (a0 - c1) * ((a0 - a2) / (2 * (a0 - c1)) - 1) + a2, 0⟩, ?_, rfl, ?_⟩
+      · simp only [vfit, sgn, ratAbs_eq_abs, Bool.false_eq_true, ↓reduceIte, hstop, hc, hty]
+      · simp only
+        set x := (a0 - a2) / (2 * (a0 - c1)) with hx
+        have hx2 : 2 * (a0 - c1) * x = a0 - a2 := by rw [hx]; field_simp
+        have hx0 : 0 ≤ x := by rw [hx]; apply div_nonneg <;> linarith
+        have hx1 : x ≤ 1/2 := by rw [hx, div_le_iff₀ (by linarith)]; linarith
+        refine ⟨by linarith, hx1, by nlinarith, ?_⟩
+        rw [vApexMin_iff, hm]
+        rw [show (-1 : ℚ) - x = -(1 + x) by ring, abs_neg, abs_of_nonneg (by linarith : (0:ℚ) ≤ 1 + x),
+            show (0 : ℚ) - x = -x by ring, abs_neg, abs_of_nonneg hx0, abs_of_nonneg (by linarith : (0:ℚ) ≤ 1 - x)]
+        refine ⟨?_, ?_, ?_⟩
+        · rw [show (a0 - c1) * (x - 1) + a2 + (a0 - c1) * (1 + x) - a0 = 2 * (a0 - c1) * x - (a0 - a2) by ring, hx2,
+              sub_self, abs_zero]; exact htol
+        · rw [show (a0 - c1) * (x - 1) + a2 + (a0 - c1) * x - c1 = 2 * (a0 - c1) * x - (a0 - a2) by ring, hx2,
+              sub_self, abs_zero]; exact htol
+        · rw [show (a0 - c1) * (x - 1) + a2 + (a0 - c1) * (1 - x) - a2 = 0 by ring, abs_zero]; exact htol
+  · have hc' : a0 ≤ a2 := not_lt.mp hc
+    have hm : vslope a0 c1 a2 = a2 - c1 := by
+      unfold vslope; split
+      · linarith
+      · rfl
+    by_cases hty : |a2 - c1| < tiny
+    · refine ⟨⟨0, c1, 0⟩, ?_, rfl, by norm_num, by norm_num, le_refl _, ?_⟩
+      · simp only [vfit, sgn, ratAbs_eq_abs, Bool.false_eq_true, ↓reduceIte, hstop, hc, hty]
+      · rw [vApexMin_iff, hm]
+        have hpos : 0 ≤ a2 - c1 := by linarith
+        rw [abs_of_nonneg hpos] at hty
+        have htl : a2 - c1 ≤ tol := by
+          rcases hnt with h | h | h
+          · linarith
+          · rw [hm] at h; linarith
+          · rw [hm] at h; linarith
+        simp only [sub_zero, abs_neg, abs_one, abs_zero, mul_one, mul_zero, add_zero, sub_self]
+        refine ⟨?_, htol, ?_⟩
+        · rw [abs_le]; constructor <;> linarith
+        · rw [show c1 + (a2 - c1) - a2 = 0 by ring, abs_zero]; exact htol
+    · have hne : a2 - c1 ≠ 0 := by intro h; apply hty; rw [h, abs_zero]; exact ht
+      have hpos : 0 < a2 - c1 := lt_of_le_of_ne (by linarith) (Ne.symm hne)
+      refine ⟨⟨(a0 - a2) / (2 * (a2 - c1)), (a2 - c1) * ((a0 - a2) / (2 * (a2 - c1)) - 1) + a2, 0⟩, ?_, rfl, ?_⟩
+      · simp only [vfit, sgn, ratAbs_eq_abs, Bool.false_eq_true, ↓reduceIte, hstop, hc, hty]
+      · simp only
+        set x := (a0 - a2) / (2 * (a2 - c1)) with hx
+        have hx2 : 2 * (a2 - c1) * x = a0 - a2 := by rw [hx]; field_simp
+        have hx0 : x ≤ 0 := by rw [hx]; apply div_nonpos_of_nonpos_of_nonneg <;> linarith
+        have hx1 : -(1/2) ≤ x := by rw [hx, le_div_iff₀ (by linarith)]; linarith
+        refine ⟨hx1, by linarith, by nlinarith, ?_⟩
+        rw [vApexMin_iff, hm]
+        rw [show (-1 : ℚ) - x = -(1 + x) by ring, abs_neg, abs_of_nonneg (by linarith : (0:ℚ) ≤ 1 + x),
+            show (0 : ℚ) - x = -x by ring, abs_of_nonneg (by linarith : (0:ℚ) ≤ -x),
+            abs_of_nonneg (by linarith : (0:ℚ) ≤ 1 - x)]
+        refine ⟨?_, ?_, ?_⟩
+        · rw [show (a2 - c1) * (x - 1) + a2 + (a2 - c1) * (1 + x) - a0 = 2 * (a2 - c1) * x - (a0 - a2) by ring, hx2,
+              sub_self, abs_zero]; exact htol
+        · rw [show (a2 - c1) * (x - 1) + a2 + (a2 - c1) * -x - c1 = 0 by ring, abs_zero]; exact htol
+        · rw [show (a2 - c1) * (x - 1) + a2 + (a2 - c1) * (1 - x) - a2 = 0 by ring, abs_zero]; exact htol
+
+
+theorem clamp1_id (x : ℚ) (h1 : -1 ≤ x) (h2 : x ≤ 1) : clamp1 x = x := by
+  unfold clamp1; rw [if_neg (by linarith), if_neg (by linarith)]
+
+theorem parab_eq (c0 c1 c2 t : ℚ) :
+    parab c0 c1 c2 t = (c0 - 2 * c1 + c2) / 2 * (t * t) + (c2 - c0) / 2 * t + c1 := by
+  unfold parab; ring
+
+theorem parabDeriv_eq (c0 c1 c2 t : ℚ) :
+    parabDeriv c0 c1 c2 t = 2 * ((c0 - 2 * c1 + c2) / 2) * t + (c2 - c0) / 2 := by
+  unfold parabDeriv; ring
+
+theorem quadratic_min_spec (ff : Bool) (a0 c1 a2 tol : ℚ) (h0 : c1 ≤ a0) (h2 : c1 ≤ a2) (htol : 0 ≤ tol) :
+    (ff = false ∧ a0 = c1 ∧ a2 = c1 ∧ quadratic ff false (.num a0) c1 (.num a2) = .err .zeroDivision) ∨
+    (¬(ff = false ∧ a0 = c1 ∧ a2 = c1) ∧ ∃ r, quadratic ff false (.num a0) c1 (.num a2) = .ok r ∧ r.flag = 0
+      ∧ -(1/2) ≤ r.shift ∧ r.shift ≤ 1/2
+      ∧ r.cost ≤ c1 ∧ parabApexPos a0 c1 a2 r.shift tol = true ∧ close (parab a0 c1 a2 r.shift) r.cost tol = true) := by
+  have hstop : ¬(c1 > a0 ∨ c1 > a2) := by push Not; exact ⟨h0, h2⟩
+  by_cases hz : 2 * ((a0 - 2 * c1 + a2) / 2) = 0
+  · have e0 : a0 = c1 := by linarith
+    have e2 : a2 = c1 := by linarith
+    cases ff
+    · left
+      refine ⟨rfl, e0, e2, ?_⟩
+      simp only [quadratic, sgn, Bool.false_eq_true, ↓reduceIte, hstop, hz]
+    · -- the repaired method: (0, cost[1], 0) on a flat triple
+      right
+      refine ⟨by simp, ⟨0, c1, 0⟩, ?_, rfl, by norm_num, by norm_num, le_refl _, ?_, ?_⟩
+      · simp only [quadratic, sgn, Bool.false_eq_true, ↓reduceIte, hstop, hz]
+      · simp only [parabApexPos, parabDeriv_eq]
+        apply close_of_eq _ _ _ htol
+        rw [e0, e2]; ring
+      · simp only [parab_eq]
+        apply close_of_eq _ _ _ htol
+        ring
+  · right
+    have hS : 0 < a0 - 2 * c1 + a2 := by
+      rcases lt_or_eq_of_le (by linarith : 0 ≤ a0 - 2 * c1 + a2) with h | h
+      · exact h
+      · exfalso; apply hz; rw [← h]; norm_num
+    refine ⟨by rintro ⟨-, rfl, rfl⟩; linarith, ?_⟩
+    set x := -((a2 - a0) / 2) / (2 * ((a0 - 2 * c1 + a2) / 2)) with hx
+    have hxS : (a0 - 2 * c1 + a2) * x = (a0 - a2) / 2 := by rw [hx]; field_simp; ring
+    have hx1 : -(1/2) ≤ x := by nlinarith
+    have hx2 : x ≤ 1/2 := by nlinarith
+    have hcl : clamp1 x = x := clamp1_id x (by linarith) (by linarith)
+    refine ⟨⟨x, (a0 - 2 * c1 + a2) / 2 * (x * x) + (a2 - a0) / 2 * x + c1, 0⟩, ?_, rfl, hx1, hx2, ?_, ?_, ?_⟩
+    · simp only [quadratic, sgn, Bool.false_eq_true, ↓reduceIte, hstop, hz, ← hx, hcl]
+    · simp only
+      have : (a0 - 2 * c1 + a2) / 2 * (x * x) + (a2 - a0) / 2 * x = -((a0 - 2 * c1 + a2) * x * x) / 2 := by
+        have := hxS; nlinarith
+      nlinarith [mul_self_nonneg x]
+    · simp only [parabApexPos, parabDeriv_eq]
+      apply close_of_eq _ _ _ htol
+      linarith
+    · simp only [parab_eq]
+      exact close_of_eq _ _ _ htol rfl
+
+/-! ### What "optimum" means (declarative content of the two apex predicates) -/
+
+/-- the Lagrange form really interpolates the three costs -/
+theorem parab_interpolates (c0 c1 c2 : ℚ) :
+    parab c0 c1 c2 (-1) = c0 ∧ parab c0 c1 c2 0 = c1 ∧ parab c0 c1 c2 1 = c2 := by
+  unfold parab; refine ⟨by ring, by ring, by ring⟩
+
+/-- a stationary point of a convex parabola is its minimum: nothing on the fitted curve is better -/
+theorem parab_apex_optimal (c0 c1 c2 x : ℚ) (hconv : 0 ≤ c0 - 2 * c1 + c2)
+    (hx : parabDeriv c0 c1 c2 x = 0) (t : ℚ) : parab c0 c1 c2 x ≤ parab c0 c1 c2 t := by
+  have e : parab c0 c1 c2 t - parab c0 c1 c2 x
+      = (t - x) * parabDeriv c0 c1 c2 x + (c0 - 2 * c1 + c2) / 2 * ((t - x) * (t - x)) := by
+    unfold parab parabDeriv; ring
+  rw [hx] at e
+  nlinarith [mul_self_nonneg (t - x)]
+
+/-- the apex of a V is its lowest point -/
+theorem vshape_apex_optimal (m x y : ℚ) (hm : 0 ≤ m) (t : ℚ) : y ≤ y + m * |t - x| := by
+  nlinarith [abs_nonneg (t - x)]
+
+/-- a non degenerate symmetric V through three points has one apex only -/
+theorem vshape_apex_unique (m c0 c1 c2 x y x' y' : ℚ) (hm : 0 < m)
+    (hx : -1 ≤ x ∧ x ≤ 1) (hx' : -1 ≤ x' ∧ x' ≤ 1)
+    (h0 : y + m * |(-1) - x| = c0) (_h1 : y + m * |0 - x| = c1) (h2 : y + m * |1 - x| = c2)
+    (h0' : y' + m * |(-1) - x'| = c0) (h1' : y' + m * |0 - x'| = c1) (h2' : y' + m * |1 - x'| = c2) :
+    x = x' ∧ y = y' := by
+  rw [show (-1 : ℚ) - x = -(1 + x) by ring, abs_neg, abs_of_nonneg (by linarith : (0:ℚ) ≤ 1 + x)] at h0
+  rw [abs_of_nonneg (by linarith : (0:ℚ) ≤ 1 - x)] at h2
+  rw [show (-1 : ℚ) - x' = -(1 + x') by ring, abs_neg, abs_of_nonneg (by linarith : (0:ℚ) ≤ 1 + x')] at h0'
+  rw [abs_of_nonneg (by linarith : (0:ℚ) ≤ 1 - x')] at h2'
+  have hxx : m * x = m * x' := by linarith
+  have hxe : x = x' := by
+    have := mul_left_cancel₀ (ne_of_gt hm) hxx
+    exact this
+  subst hxe
+  exact ⟨rfl, by linarith⟩
+
+/-! ### Both measures at once -/
+
+theorem close_neg (a b tol : ℚ) : close (-a) (-b) tol = close a b tol := by
+  simp only [close]
+  rw [show -a - -b = b - a by ring, show -b - -a = a - b by ring, Bool.and_comm]
+
+theorem parab_neg (c0 c1 c2 t : ℚ) : parab (-c0) (-c1) (-c2) t = -parab c0 c1 c2 t := by
+  unfold parab; ring
+
+theorem parabDeriv_neg (c0 c1 c2 t : ℚ) : parabDeriv (-c0) (-c1) (-c2) t = -parabDeriv c0 c1 c2 t := by
+  unfold parabDeriv; ring
+
+/-- the slope magnitude seen by the specification for either measure -/
+def vslopeOf (isMax : Bool) (a0 c1 a2 : ℚ) : ℚ := vslope (sgn isMax a0) (sgn isMax c1) (sgn isMax a2)
+
+/-- the fitted point required by the statement for the method -/
+def fitOK (m : Method) (isMax : Bool) (a0 c1 a2 x y tol : ℚ) : Bool :=
+  match m with
+  | .vfit => vApex isMax a0 c1 a2 x y tol
+  | .quadratic => parabApexPos a0 c1 a2 x tol && close (parab a0 c1 a2 x) y tol
+
+/-- **Method level.**  On three numeric costs whose centre is an extremum, the refinement method
+    either returns (shift, fitted cost, no flag) with `|shift| ≤ 1/2`, the fitted cost not worse than the
+    centre and the fitted point required by the statement — or it is the unrepaired `quadratic` on three
+    equal costs, which raises. -/
+theorem method_refine (ff : Bool) (m : Method) (isMax : Bool) (a0 c1 a2 tol : ℚ)
+    (hext : isExtremum isMax a0 c1 a2 = true) (htol : 0 ≤ tol)
+    (hnt : m = .vfit → (tiny ≤ tol ∨ vslopeOf isMax a0 c1 a2 = 0 ∨ tiny ≤ vslopeOf isMax a0 c1 a2)) :
+    (m = .quadratic ∧ ff = false ∧ a0 = c1 ∧ a2 = c1
+      ∧ runMethod ff m isMax (.num a0) c1 (.num a2) = .err .zeroDivision) ∨
+    (¬(m = .quadratic ∧ ff = false ∧ a0 = c1 ∧ a2 = c1) ∧
+     ∃ r, runMethod ff m isMax (.num a0) c1 (.num a2) = .ok r ∧ r.flag = 0 ∧ -(1/2) ≤ r.shift ∧ r.shift ≤ 1/2
+      ∧ (if isMax then c1 ≤ r.cost else r.cost ≤ c1) ∧ fitOK m isMax a0 c1 a2 r.shift r.cost tol = true) := by
+  cases isMax
+  · -- cost to be minimised
+    simp only [isExtremum, notWorse, Bool.false_eq_true, ↓reduceIte, Bool.and_eq_true, decide_eq_true_eq] at hext
+    cases m
+    · right
+      obtain ⟨r, hr, hf, h1, h2, h3, h4⟩ := vfit_min_spec a0 c1 a2 tol hext.1 hext.2 htol
+        (by simpa [vslopeOf, sgn] using hnt rfl)
+      exact ⟨by simp, r, hr, hf, h1, h2, by simpa using h3, by simpa [fitOK, vApex, sgn] using h4⟩
+    · rcases quadratic_min_spec ff a0 c1 a2 tol hext.1 hext.2 htol with
+        ⟨hff, e0, e2, he⟩ | ⟨hne, r, hr, hf, h1, h2, h3, h4, h5⟩
+      · left; exact ⟨rfl, hff, e0, e2, he⟩
+      · right
+        exact ⟨by simpa using hne, r, hr, hf, h1, h2, by simpa using h3, by simp [fitOK, h4, h5]⟩
+  · -- similarity to be maximised: the same on the negated costs
+    simp only [isExtremum, notWorse, ↓reduceIte, Bool.and_eq_true, decide_eq_true_eq] at hext
+    cases m
+    · right
+      obtain ⟨r, hr, hf, h1, h2, h3, h4⟩ := vfit_min_spec (-a0) (-c1) (-a2) tol (by linarith [hext.1]) (by linarith [hext.2]) htol
+        (by simpa [vslopeOf, sgn] using hnt rfl)
+      refine ⟨by simp, ⟨r.shift, -r.cost, r.flag⟩, ?_, hf, h1, h2, ?_, ?_⟩
+      · simp only [runMethod, vfit_max, hr, negOut]
+      · simp only [↓reduceIte]; linarith
+      · simpa [fitOK, vApex, sgn] using h4
+    · rcases quadratic_min_spec ff (-a0) (-c1) (-a2) tol (by linarith [hext.1]) (by linarith [hext.2]) htol with
+        ⟨hff, e0, e2, he⟩ | ⟨hne, r, hr, hf, h1, h2, h3, h4, h5⟩
+      · left
+        refine ⟨rfl, hff, by linarith, by linarith, ?_⟩
+        simp only [runMethod, quadratic_max, he, negOut]
+      · right
+        refine ⟨?_, ⟨r.shift, -r.cost, r.flag⟩, ?_, hf, h1, h2, ?_, ?_⟩
+        · rintro ⟨-, hff, e0, e2⟩; apply hne; exact ⟨hff, by linarith, by linarith⟩
+        · simp only [runMethod, quadratic_max, hr, negOut]
+        · simp only [↓reduceIte]; linarith
+        · simp only [fitOK, Bool.and_eq_true]
+          constructor
+          · have := h4
+            simp only [parabApexPos, parabDeriv_neg] at this ⊢
+            rw [← close_neg]; simpa using this
+          · have := h5
+            rw [parab_neg] at this
+            rw [← close_neg, neg_neg]; exact this
+
+/-- **Method level, the stop cases**: a NaN neighbour or a centre that is not an extremum gives
+    shift 0, the centre cost, and bit 3. -/
+theorem method_stop (ff : Bool) (m : Method) (isMax : Bool) (c0 c2 : Val) (c1 : ℚ)
+    (h : c0 = .nan ∨ c2 = .nan ∨ ∃ a0 a2, c0 = .num a0 ∧ c2 = .num a2 ∧ isExtremum isMax a0 c1 a2 = false) :
+    runMethod ff m isMax c0 c1 c2 = .ok ⟨0, c1, stoppedBit⟩ := by
+  rcases h with rfl | rfl | ⟨a0, a2, rfl, rfl, hne⟩
+  · cases m <;> simp [runMethod, vfit, quadratic]
+  · cases m <;> cases c0 <;> simp [runMethod, vfit, quadratic]
+  · have := (stop_cond_iff isMax a0 c1 a2).mpr hne
+    cases m <;> simp only [runMethod, vfit, quadratic, this, ↓reduceIte]
+
+/-- the unrepaired `quadratic` raises exactly on three equal costs (given numeric neighbours and an
+    extremum); the repaired one never raises -/
+theorem quadratic_raises_iff (ff : Bool) (isMax : Bool) (a0 c1 a2 : ℚ) (hext : isExtremum isMax a0 c1 a2 = true) :
+    quadratic ff isMax (.num a0) c1 (.num a2) = .err .zeroDivision ↔ (ff = false ∧ a0 = c1 ∧ a2 = c1) := by
+  rcases method_refine ff .quadratic isMax a0 c1 a2 0 hext (le_refl _) (by simp) with
+    ⟨-, hff, e0, e2, he⟩ | ⟨hne, r, hr, -⟩
+  · simp only [runMethod] at he; exact ⟨fun _ => ⟨hff, e0, e2⟩, fun _ => he⟩
+  · simp only [runMethod] at hr
+    constructor
+    · intro h; rw [hr] at h; cases h
+    · intro h; exact absurd ⟨rfl, h.1, h.2.1, h.2.2⟩ hne
+
+/-! ## Pixel level -/
+
+theorem pyInt_of_nonneg (q : ℚ) (h : 0 ≤ q) : pyInt q = q.floor := by
+  simp [pyInt, h]
+
+theorem pyGet_inrange (l : List Val) (i : Int) (h0 : 0 ≤ i) (h1 : i < l.length) :
+    pyGet l i = some (costAt l i) := by
+  have hlt : i.toNat < l.length := by omega
+  simp only [pyGet, costAt, h0, ↓reduceIte]
+  rw [List.getElem?_eq_getElem hlt, List.getD_eq_getElem?_getD, List.getElem?_eq_getElem hlt]
+  rfl
+
+theorem pyGet_neg_one (l : List Val) (h : 0 < l.length) : ∃ v, pyGet l (-1) = some v := by
+  have hlt : l.length - 1 < l.length := by omega
+  refine ⟨l[l.length - 1], ?_⟩
+  have : ¬ (0 : Int) ≤ -1 := by omega
+  have h2 : -(-1 : Int) ≤ (l.length : Int) := by omega
+  simp only [pyGet, this, ↓reduceIte, h2]
+  simp [List.getElem?_eq_getElem hlt]
+
+theorem bit3_add (f : Nat) (h : bitAt f 3 = 0) :
+    bitAt (f + 8) 3 = 1 ∧ sameExceptBit3 (f + 8) f = true := by
+  simp only [bitAt, sameExceptBit3, Bool.and_eq_true, beq_iff_eq] at *
+  norm_num at *
+  omega
+
+theorem sameExceptBit3_refl (f : Nat) : sameExceptBit3 f f = true := by
+  simp [sameExceptBit3]
+
+theorem addFlag_zero (b : Bool) (f : Nat) : addFlag b f 0 = f := by
+  cases b <;> simp [addFlag]
+
+/-- raising bit 3: by `+=` when it is clear, by `|=` always -/
+theorem addFlag_stopped (b : Bool) (f : Nat) (h : b = true ∨ bitAt f 3 = 0) :
+    bitAt (addFlag b f stoppedBit) 3 = 1 ∧ sameExceptBit3 (addFlag b f stoppedBit) f = true := by
+  cases b
+  · rcases h with h | h
+    · cases h
+    · exact bit3_add f h
+  · have e : stoppedBit = 8 := rfl
+    simp only [addFlag, ↓reduceIte, e]
+    constructor
+    · have h8 : Nat.testBit 8 3 = true := by decide
+      have ht : (f ||| 8).testBit 3 = true := by simp [Nat.testBit_or, h8]
+      rw [Nat.testBit_eq_decide_div_mod_eq] at ht
+      simpa [bitAt] using ht
+    · have h1 := @Nat.or_mod_two_pow f 8 3
+      have h2 := @Nat.or_div_two_pow f 8 4
+      simp only [sameExceptBit3, Bool.and_eq_true, beq_iff_eq]
+      constructor
+      · simpa using h1
+      · simpa using h2
+
+/-- Well-formedness of a pixel (decidable): the cost row has one cell per sample of the interval,
+    a valid pixel carries a disparity of its own interval, which lies inside the global one, and the
+    costs outside the pixel's interval are NaN (C02/C09). -/
+def wfPix (P : Params) (x : PixIn) : Bool :=
+  decide (1 ≤ P.subpix)
+  && decide (((x.costs.length : Int) : Rat) = (P.dmax - P.dmin) * (P.subpix : Rat) + 1)
+  && decide (P.dmin ≤ x.pmin) && decide (x.pmax ≤ P.dmax)
+  && (Flags.isInvalid x.flag ||
+      match x.d with
+      | .num dv => decide (x.pmin ≤ dv) && decide (dv ≤ x.pmax)
+      | .nan => false)
+  && (List.range x.costs.length).all (fun i =>
+      !(decide (P.dmin + (i : Rat) / (P.subpix : Rat) < x.pmin) || decide (x.pmax < P.dmin + (i : Rat) / (P.subpix : Rat)))
+        || x.costs.getD i .nan == .nan)
+
+/-- the received disparity of a valid pixel is a sample of the interval -/
+def onGridPix (P : Params) (x : PixIn) : Bool :=
+  Flags.isInvalid x.flag || match x.d with
+    | .num dv => onGrid P dv
+    | .nan => true
+
+/-- the interval-end test of the code (`disp == d_min or disp == d_max`) agrees with "the sample is an
+    end of the interval".  True on the grid (`ends_agree_of_onGrid`); off the grid it fails exactly when
+    the sample is the first one. -/
+def endsAgree (P : Params) (x : PixIn) : Prop :=
+  Flags.isInvalid x.flag = false → ∀ dv, x.d = .num dv →
+    ((dv = P.dmin ∨ dv = P.dmax) ↔ (sampleOf P dv = 0 ∨ sampleOf P dv = (x.costs.length : Int) - 1))
+
+/-- differences between two costs of the row are 0 or at least the `1e-15` of vfit.py -/
+def notTinyCosts (costs : List Val) : Bool :=
+  costs.all fun a => costs.all fun b =>
+    match a, b with
+    | .num p, .num q => decide (p - q = 0) || decide (tiny ≤ p - q) || decide (tiny ≤ q - p)
+    | _, _ => true
+
+/-- the move of a refined pixel is at most half a sample, exactly (no tolerance) -/
+def exactHalf (P : Params) (x : PixIn) (o : PixOut) : Bool :=
+  match classify P x, o.d with
+  | .refine d _ _ _, .num d' =>
+    decide (d' - d ≤ 1 / (2 * (P.subpix : Rat))) && decide (d - d' ≤ 1 / (2 * (P.subpix : Rat)))
+  | .refine _ _ _ _, .nan => false
+  | _, _ => true
+
+/-- every clause except `inside_interval` (and the exact half-sample bound) -/
+def coreOK (P : Params) (x : PixIn) (o : PixOut) (tol : Rat) : Bool :=
+  (clauses P x o tol).all (fun c => c.2 || c.1 == "inside_interval") && exactHalf P x o
+
+structure WfFacts (P : Params) (x : PixIn) : Prop where
+  subpix_pos : 1 ≤ P.subpix
+  len : ((x.costs.length : Int) : ℚ) = (P.dmax - P.dmin) * (P.subpix : ℚ) + 1
+  pmin_ge : P.dmin ≤ x.pmin
+  pmax_le : x.pmax ≤ P.dmax
+  disp : Flags.isInvalid x.flag = false → ∃ dv, x.d = .num dv ∧ x.pmin ≤ dv ∧ dv ≤ x.pmax
+  outside : ∀ i : Nat, i < x.costs.length →
+    (P.dmin + (i : ℚ) / (P.subpix : ℚ) < x.pmin ∨ x.pmax < P.dmin + (i : ℚ) / (P.subpix : ℚ)) →
+    x.costs.getD i .nan = .nan
+
+theorem wfPix_facts (P : Params) (x : PixIn) (h : wfPix P x = true) : WfFacts P x := by
+  simp only [wfPix, Bool.and_eq_true, decide_eq_true_eq, Bool.or_eq_true, List.all_eq_true, List.mem_range,
+    Bool.not_eq_true', beq_iff_eq] at h
+  obtain ⟨⟨⟨⟨⟨h1, h2⟩, h3⟩, h4⟩, h5⟩, h6⟩ := h
+  refine ⟨h1, h2, h3, h4, ?_, ?_⟩
+  · intro hv
+    rcases h5 with h5 | h5
+    · rw [hv] at h5; cases h5
+    · cases hd : x.d with
+      | nan => rw [hd] at h5; cases h5
+      | num dv =>
+        rw [hd] at h5
+        simp only [Bool.and_eq_true, decide_eq_true_eq] at h5
+        exact ⟨dv, rfl, h5.1, h5.2⟩
+  · intro i hi hout
+    rcases h6 i hi with h | h
+    · exfalso
+      simp only [Bool.or_eq_false_iff, decide_eq_false_iff_not] at h
+      rcases hout with ho | ho
+      · exact h.1 ho
+      · exact h.2 ho
+    · exact h
+
+theorem sample_facts (P : Params) (x : PixIn) (W : WfFacts P x) (dv : ℚ) (h1 : P.dmin ≤ dv) (h2 : dv ≤ P.dmax) :
+    pyInt ((dv - P.dmin) * (P.subpix : ℚ)) = sampleOf P dv ∧ 0 ≤ sampleOf P dv
+      ∧ sampleOf P dv ≤ (x.costs.length : Int) - 1
+      ∧ (dv ≠ P.dmax → sampleOf P dv ≤ (x.costs.length : Int) - 2) := by
+  have hs : (0 : ℚ) < (P.subpix : ℚ) := by
+    have := W.subpix_pos
+    exact_mod_cast (by omega : 0 < P.subpix)
+  have hq0 : 0 ≤ (dv - P.dmin) * (P.subpix : ℚ) := mul_nonneg (by linarith) (le_of_lt hs)
+  have hlen : (x.costs.length : ℚ) = (P.dmax - P.dmin) * (P.subpix : ℚ) + 1 := by
+    have := W.len; push_cast at this; exact this
+  have hq1 : (dv - P.dmin) * (P.subpix : ℚ) ≤ (x.costs.length : ℚ) - 1 := by
+    rw [hlen]; nlinarith
+  refine ⟨pyInt_of_nonneg _ hq0, ?_, ?_, ?_⟩
+  · unfold sampleOf; rw [Rat.le_floor_iff]; exact_mod_cast hq0
+  · unfold sampleOf
+    have := Rat.floor_le ((dv - P.dmin) * (P.subpix : ℚ))
+    have h3 : (((dv - P.dmin) * (P.subpix : ℚ)).floor : ℚ) ≤ (((x.costs.length : Int) - 1 : Int) : ℚ) := by
+      push_cast; linarith
+    exact_mod_cast h3
+  · intro hne
+    have hlt : dv < P.dmax := lt_of_le_of_ne h2 hne
+    have hq2 : (dv - P.dmin) * (P.subpix : ℚ) < (((x.costs.length : Int) - 1 : Int) : ℚ) := by
+      push_cast; rw [hlen]; nlinarith
+    have := (Rat.floor_lt_iff).mpr hq2
+    unfold sampleOf; omega
+
+theorem costAt_mem (l : List Val) (i : Int) (a : ℚ) (h : costAt l i = .num a) : Val.num a ∈ l := by
+  unfold costAt at h
+  split at h
+  · rw [List.getD_eq_getElem?_getD] at h
+    cases hg : l[i.toNat]? with
+    | none => rw [hg] at h; cases h
+    | some v =>
+      rw [hg] at h
+      simp at h
+      subst h
+      exact List.mem_of_getElem? hg
+  · cases h
+
+theorem notTiny_slope (costs : List Val) (h : notTinyCosts costs = true) (isMax : Bool) (a0 c1 a2 : ℚ)
+    (m0 : Val.num a0 ∈ costs) (m1 : Val.num c1 ∈ costs) (m2 : Val.num a2 ∈ costs)
+    (hext : isExtremum isMax a0 c1 a2 = true) :
+    vslopeOf isMax a0 c1 a2 = 0 ∨ tiny ≤ vslopeOf isMax a0 c1 a2 := by
+  simp only [notTinyCosts, List.all_eq_true] at h
+  have h01 := h _ m0 _ m1
+  have h21 := h _ m2 _ m1
+  simp only [Bool.or_eq_true, decide_eq_true_eq] at h01 h21
+  have ht := tiny_pos
+  cases isMax <;>
+    simp only [isExtremum, notWorse, Bool.false_eq_true, ↓reduceIte, Bool.and_eq_true, decide_eq_true_eq] at hext <;>
+    simp only [vslopeOf, vslope, sgn, Bool.false_eq_true, ↓reduceIte] <;>
+    split <;>
+    · rcases h01 with (h01 | h01) | h01 <;> rcases h21 with (h21 | h21) | h21 <;>
+        first
+          | (left; linarith [hext.1, hext.2])
+          | (right; linarith [hext.1, hext.2])
+
+/-- **Pixel level, everything except `inside_interval`.**  The two provisos are needed by the code as it
+    is and vanish with the repairs: the interval-end test must agree with the sample index (`fixEnds`
+    makes it so), bit 3 must be clear (`fixOr` makes it irrelevant). -/
+theorem refinePixel_core (P : Params) (x : PixIn) (tol : ℚ) (hwf : wfPix P x = true)
+    (hends : P.variant.fixEnds = true ∨ endsAgree P x) (hbit : P.variant.fixOr = true ∨ bitAt x.flag 3 = 0)
+    (htol : 0 ≤ tol) (hnt : P.method = .vfit → tiny ≤ tol ∨ notTinyCosts x.costs = true) :
+    (∃ o, refinePixel P x = .ok o ∧ coreOK P x o tol = true) ∨
+    (P.method = .quadratic ∧ P.variant.fixFlat = false ∧ refinePixel P x = .err .zeroDivision
+      ∧ ∃ d c, classify P x = .refine d c c c) := by
+  have W := wfPix_facts P x hwf
+  by_cases hinv : Flags.isInvalid x.flag = true
+  · left
+    refine ⟨⟨.nan, x.d, x.flag⟩, ?_, ?_⟩
+    · simp [refinePixel, hinv]
+    · simp [coreOK, exactHalf, clauses, classify, hinv]
+  · have hinv' : Flags.isInvalid x.flag = false := by simpa using hinv
+    obtain ⟨dv, hd, hp1, hp2⟩ := W.disp hinv'
+    have hd1 : P.dmin ≤ dv := le_trans W.pmin_ge hp1
+    have hd2 : dv ≤ P.dmax := le_trans hp2 W.pmax_le
+    obtain ⟨hpy, hs0, hs1, hs2⟩ := sample_facts P x W dv hd1 hd2
+    -- the test that lets the method run says: the sample is not an end of the interval
+    have hna : notAtEnd P x.costs.length dv (sampleOf P dv) = true ↔
+        ¬(sampleOf P dv = 0 ∨ sampleOf P dv = (x.costs.length : Int) - 1) := by
+      unfold notAtEnd
+      cases hfe : P.variant.fixEnds
+      · rcases hends with h | h
+        · rw [hfe] at h; cases h
+        · have hE := h hinv' dv hd
+          simp only [Bool.false_eq_true, ↓reduceIte, Bool.and_eq_true, bne_iff_ne, ne_eq]
+          rw [← hE]
+          constructor
+          · rintro ⟨h1, h2⟩ (h3 | h3) <;> contradiction
+          · intro h3; exact ⟨fun h1 => h3 (Or.inl h1), fun h2 => h3 (Or.inr h2)⟩
+      · simp only [↓reduceIte, Bool.and_eq_true, bne_iff_ne, ne_eq]
+        constructor
+        · rintro ⟨h1, h2⟩ (h3 | h3) <;> contradiction
+        · intro h3; exact ⟨fun h1 => h3 (Or.inl h1), fun h2 => h3 (Or.inr h2)⟩
+    generalize hsdef : sampleOf P dv = s at *
+    have hlt : s < (x.costs.length : Int) := by omega
+    have hget : pyGet x.costs s = some (costAt x.costs s) := pyGet_inrange _ _ hs0 hlt
+    have hcls0 : ¬(s < 0 ∨ (x.costs.length : Int) ≤ s) := by omega
+    cases hc1 : costAt x.costs s with
+    | nan =>
+      left
+      refine ⟨⟨.nan, x.d, x.flag⟩, ?_, ?_⟩
+      · simp [refinePixel, hinv', hd, hpy, hget, hc1]
+      · simp [coreOK, exactHalf, clauses, classify, hinv', hd, hsdef, hcls0, hc1]
+    | num c1 =>
+      obtain ⟨hb1', hb2'⟩ := addFlag_stopped P.variant.fixOr x.flag hbit
+      by_cases hend : s = 0 ∨ s = (x.costs.length : Int) - 1
+      · -- the sample is an end of the interval: stopped
+        left
+        have hdd : notAtEnd P x.costs.length dv s = false := by
+          by_contra hcon
+          exact (hna.mp (by simpa using hcon)) hend
+        refine ⟨⟨.num c1, x.d, addFlag P.variant.fixOr x.flag stoppedBit⟩, ?_, ?_⟩
+        · simp [refinePixel, hinv', hd, hpy, hget, hc1, hdd]
+        · simp [coreOK, exactHalf, clauses, classify, hinv', hd, hsdef, hcls0, hc1, hend, hb1', hb2']
+      · -- an inner sample: the method is applied to the three costs
+        have hne : notAtEnd P x.costs.length dv s = true := hna.mpr hend
+        have hsl : 1 ≤ s ∧ s ≤ (x.costs.length : Int) - 2 := by omega
+        have hg0 : pyGet x.costs (s - 1) = some (costAt x.costs (s - 1)) := pyGet_inrange _ _ (by omega) (by omega)
+        have hg2 : pyGet x.costs (s + 1) = some (costAt x.costs (s + 1)) := pyGet_inrange _ _ (by omega) (by omega)
+        have hsub : (0 : ℚ) < (P.subpix : ℚ) := by
+          have := W.subpix_pos
+          exact_mod_cast (by omega : 0 < P.subpix)
+        -- what the model does on an inner sample, for any method answer
+        have hmodel : ∀ r, runMethod P.variant.fixFlat P.method P.isMax (costAt x.costs (s - 1)) c1 (costAt x.costs (s + 1)) = .ok r →
+            refinePixel P x = .ok ⟨.num r.cost, .num (dv + r.shift / (P.subpix : ℚ)), addFlag P.variant.fixOr x.flag r.flag⟩ := by
+          intro r hr
+          simp [refinePixel, hinv', hd, hpy, hget, hc1, hne, hg0, hg2, hr]
+        have hmodelE : ∀ e, runMethod P.variant.fixFlat P.method P.isMax (costAt x.costs (s - 1)) c1 (costAt x.costs (s + 1)) = .err e →
+            refinePixel P x = .err e := by
+          intro e hr
+          simp [refinePixel, hinv', hd, hpy, hget, hc1, hne, hg0, hg2, hr]
+        -- the stop cases share their conclusion
+        have hstopped : ∀ cls : Class, classify P x = cls →
+            (cls = .neighbourNan ∨ cls = .notExtremum) →
+            runMethod P.variant.fixFlat P.method P.isMax (costAt x.costs (s - 1)) c1 (costAt x.costs (s + 1)) = .ok ⟨0, c1, stoppedBit⟩ →
+            ∃ o, refinePixel P x = .ok o ∧ coreOK P x o tol = true := by
+          intro cls hcls hk hr
+          refine ⟨_, hmodel _ hr, ?_⟩
+          rcases hk with rfl | rfl <;>
+            simp [coreOK, exactHalf, clauses, hcls, hd, hb1', hb2']
+        cases hc0 : costAt x.costs (s - 1) with
+        | nan =>
+          left
+          apply hstopped .neighbourNan
+          · simp [classify, hinv', hd, hsdef, hcls0, hc1, hend, hc0]
+          · exact Or.inl rfl
+          · exact method_stop _ _ _ _ _ _ (Or.inl hc0)
+        | num a0 =>
+          cases hc2 : costAt x.costs (s + 1) with
+          | nan =>
+            left
+            apply hstopped .neighbourNan
+            · simp [classify, hinv', hd, hsdef, hcls0, hc1, hend, hc0, hc2]
+            · exact Or.inl rfl
+            · exact method_stop _ _ _ _ _ _ (Or.inr (Or.inl hc2))
+          | num a2 =>
+            by_cases hext : isExtremum P.isMax a0 c1 a2 = true
+            · -- the centre is an extremum of three numbers: refined (or `quadratic` raises on a flat triple)
+              have hcls : classify P x = .refine dv a0 c1 a2 := by
+                simp [classify, hinv', hd, hsdef, hcls0, hc1, hend, hc0, hc2, hext]
+              have hnt' : P.method = .vfit →
+                  (tiny ≤ tol ∨ vslopeOf P.isMax a0 c1 a2 = 0 ∨ tiny ≤ vslopeOf P.isMax a0 c1 a2) := by
+                intro hm
+                rcases hnt hm with h | h
+                · exact Or.inl h
+                · exact Or.inr (notTiny_slope x.costs h P.isMax a0 c1 a2 (costAt_mem _ _ _ hc0) (costAt_mem _ _ _ hc1)
+                    (costAt_mem _ _ _ hc2) hext)
+              rcases method_refine P.variant.fixFlat P.method P.isMax a0 c1 a2 tol hext htol hnt' with
+                ⟨hq, hff, e0, e2, he⟩ | ⟨-, r, hr, hf, hr1, hr2, hr3, hr4⟩
+              · right
+                refine ⟨hq, hff, hmodelE _ (by rw [hc0, hc2]; exact he), dv, c1, ?_⟩
+                rw [hcls, e0, e2]
+              · left
+                refine ⟨_, hmodel r (by rw [hc0, hc2]; exact hr), ?_⟩
+                have hfl : addFlag P.variant.fixOr x.flag r.flag = x.flag := by rw [hf]; exact addFlag_zero _ _
+                rw [hfl]
+                have hsx : (dv + r.shift / (P.subpix : ℚ) - dv) * (P.subpix : ℚ) = r.shift := by
+                  field_simp; ring
+                have hE1 : dv + r.shift / (P.subpix : ℚ) - dv ≤ 1 / (2 * (P.subpix : ℚ)) := by
+                  rw [show dv + r.shift / (P.subpix : ℚ) - dv = r.shift / (P.subpix : ℚ) by ring,
+                      show (1 : ℚ) / (2 * (P.subpix : ℚ)) = (1 / 2) / (P.subpix : ℚ) by field_simp]
+                  exact div_le_div_of_nonneg_right hr2 (le_of_lt hsub)
+                have hE2 : dv - (dv + r.shift / (P.subpix : ℚ)) ≤ 1 / (2 * (P.subpix : ℚ)) := by
+                  rw [show dv - (dv + r.shift / (P.subpix : ℚ)) = (-r.shift) / (P.subpix : ℚ) by ring,
+                      show (1 : ℚ) / (2 * (P.subpix : ℚ)) = (1 / 2) / (P.subpix : ℚ) by field_simp]
+                  exact div_le_div_of_nonneg_right (by linarith) (le_of_lt hsub)
+                have hhalf1 : dv + r.shift / (P.subpix : ℚ) - dv ≤ 1 / (2 * (P.subpix : ℚ)) + tol := by linarith
+                have hhalf2 : dv - (dv + r.shift / (P.subpix : ℚ)) ≤ 1 / (2 * (P.subpix : ℚ)) + tol := by linarith
+                have hexact : exactHalf P x ⟨.num r.cost, .num (dv + r.shift / (P.subpix : ℚ)), x.flag⟩ = true := by
+                  simp only [exactHalf, hcls, Bool.and_eq_true, decide_eq_true_eq]; exact ⟨hE1, hE2⟩
+                have hworse : (if P.isMax = true then decide (c1 ≤ r.cost + tol) else decide (r.cost ≤ c1 + tol)) = true := by
+                  cases hM : P.isMax <;> simp [hM] at hr3 ⊢ <;> linarith
+                have hflag : (x.flag == x.flag) = true := by simp
+                have hsame : sameExceptBit3 x.flag x.flag = true := sameExceptBit3_refl _
+                have hhalf : decide (dv + r.shift / (P.subpix : ℚ) - dv ≤ 1 / (2 * (P.subpix : ℚ)) + tol) = true
+                    ∧ decide (dv - (dv + r.shift / (P.subpix : ℚ)) ≤ 1 / (2 * (P.subpix : ℚ)) + tol) = true := by
+                  simp only [decide_eq_true_eq]; exact ⟨hhalf1, hhalf2⟩
+                cases hm : P.method <;> rw [hm] at hr4 <;> simp only [coreOK, hexact, Bool.and_true] <;>
+                  simp only [clauses, hcls, valNum?, hm, List.all_cons, List.all_nil, Bool.and_true,
+                    Bool.and_eq_true, Bool.or_eq_true, fitOK, hsx] at hr4 ⊢
+                · exact ⟨Or.inl hflag, Or.inl hsame, Or.inl hhalf, Or.inl hr4, Or.inl hr4, Or.inl hworse, Or.inr (by decide)⟩
+                · exact ⟨Or.inl hflag, Or.inl hsame, Or.inl hhalf, Or.inl hr4.1, Or.inl hr4.2, Or.inl hworse, Or.inr (by decide)⟩
+            · have hext' : isExtremum P.isMax a0 c1 a2 = false := by simpa using hext
+              left
+              apply hstopped .notExtremum
+              · simp [classify, hinv', hd, hsdef, hcls0, hc1, hend, hc0, hc2, hext']
+              · exact Or.inr rfl
+              · exact method_stop _ _ _ _ _ _ (Or.inr (Or.inr ⟨a0, a2, hc0, hc2, hext'⟩))
+
+/-! ### When the code's interval-end test agrees with the statement's -/
+
+theorem onGrid_floor (q : ℚ) (h : q.den = 1) : ((q.floor : Int) : ℚ) = q := by
+  have : q.floor = q.num := by simp [Rat.floor, h]
+  rw [this]
+  exact (Rat.den_eq_one_iff q).mp h
+
+theorem floor_zero : Rat.floor 0 = 0 := Rat.floor_intCast 0
+
+/-- for a disparity that is a sample, `d = dmin ∨ d = dmax` says "the sample is an end of the interval" -/
+theorem ends_iff_onGrid (P : Params) (n : Nat) (hs : (0 : ℚ) < (P.subpix : ℚ))
+    (hlen : (n : ℚ) = (P.dmax - P.dmin) * (P.subpix : ℚ) + 1) (dv : ℚ) (hg : onGrid P dv = true) :
+    (dv = P.dmin ∨ dv = P.dmax) ↔ (sampleOf P dv = 0 ∨ sampleOf P dv = (n : Int) - 1) := by
+  have hq := onGrid_floor _ (by simpa [onGrid] using hg)
+  unfold sampleOf
+  constructor
+  · rintro (h | h)
+    · left; rw [h]; simp [floor_zero]
+    · right
+      have h2 : (dv - P.dmin) * (P.subpix : ℚ) = (((n : Int) - 1 : Int) : ℚ) := by
+        push_cast; rw [hlen, h]; ring
+      rw [h2, Rat.floor_intCast]
+  · rintro (h | h)
+    · left
+      rw [h] at hq
+      have : (dv - P.dmin) * (P.subpix : ℚ) = 0 := by rw [← hq]; simp
+      rcases mul_eq_zero.mp this with h' | h'
+      · linarith
+      · exact absurd h' (ne_of_gt hs)
+    · right
+      rw [h] at hq
+      have : (dv - P.dmin) * (P.subpix : ℚ) = (P.dmax - P.dmin) * (P.subpix : ℚ) := by
+        rw [← hq]; push_cast; rw [hlen]; ring
+      have := mul_right_cancel₀ (ne_of_gt hs) this
+      linarith
+
+theorem ends_agree_of_onGrid (P : Params) (x : PixIn) (hwf : wfPix P x = true) (hg : onGridPix P x = true) :
+    endsAgree P x := by
+  have W := wfPix_facts P x hwf
+  intro hinv dv hd
+  have hs : (0 : ℚ) < (P.subpix : ℚ) := by
+    have := W.subpix_pos
+    exact_mod_cast (by omega : 0 < P.subpix)
+  have hlen : (x.costs.length : ℚ) = (P.dmax - P.dmin) * (P.subpix : ℚ) + 1 := by
+    have := W.len; push_cast at this; exact this
+  have hgd : onGrid P dv = true := by simpa [onGridPix, hinv, hd] using hg
+  exact ends_iff_onGrid P x.costs.length hs hlen dv hgd
+
+/-- off the grid (after a filter) the two tests still agree unless the disparity designates the
+    first sample — the situation of finding C06-F3 -/
+theorem ends_agree_offGrid (P : Params) (x : PixIn) (hwf : wfPix P x = true)
+    (hoff : ∀ dv, x.d = .num dv → onGrid P dv = false ∧ sampleOf P dv ≠ 0) : endsAgree P x := by
+  have W := wfPix_facts P x hwf
+  intro hinv dv hd
+  obtain ⟨hng, hs0⟩ := hoff dv hd
+  obtain ⟨dv', hd', hp1, hp2⟩ := W.disp hinv
+  have : dv' = dv := by rw [hd] at hd'; cases hd'; rfl
+  subst this
+  have hd1 : P.dmin ≤ dv' := le_trans W.pmin_ge hp1
+  have hd2 : dv' ≤ P.dmax := le_trans hp2 W.pmax_le
+  have hs : (0 : ℚ) < (P.subpix : ℚ) := by
+    have := W.subpix_pos
+    exact_mod_cast (by omega : 0 < P.subpix)
+  have hlen : (x.costs.length : ℚ) = (P.dmax - P.dmin) * (P.subpix : ℚ) + 1 := by
+    have := W.len; push_cast at this; exact this
+  have hden : ∀ k : Int, (dv' - P.dmin) * (P.subpix : ℚ) ≠ (k : ℚ) := by
+    intro k hk
+    have : onGrid P dv' = true := by simp [onGrid, hk]
+    rw [this] at hng; cases hng
+  obtain ⟨-, -, -, hs2⟩ := sample_facts P x W dv' hd1 hd2
+  have hne1 : dv' ≠ P.dmin := by
+    intro h; apply hden 0; rw [h]; simp
+  have hne2 : dv' ≠ P.dmax := by
+    intro h; apply hden ((x.costs.length : Int) - 1); push_cast; rw [hlen, h]; ring
+  have := hs2 hne2
+  constructor
+  · rintro (h | h)
+    · exact absurd h hne1
+    · exact absurd h hne2
+  · rintro (h | h)
+    · exact absurd h hs0
+    · omega
+
+/-! ### `inside_interval` on the grid -/
+
+theorem classify_refine_inv (P : Params) (x : PixIn) (d a0 c1 a2 : ℚ) (h : classify P x = .refine d a0 c1 a2) :
+    Flags.isInvalid x.flag = false ∧ x.d = .num d ∧ 1 ≤ sampleOf P d ∧ sampleOf P d ≤ (x.costs.length : Int) - 2
+      ∧ costAt x.costs (sampleOf P d - 1) = .num a0 ∧ costAt x.costs (sampleOf P d) = .num c1
+      ∧ costAt x.costs (sampleOf P d + 1) = .num a2 ∧ isExtremum P.isMax a0 c1 a2 = true := by
+  unfold classify at h
+  split at h
+  · cases h
+  · rename_i hinv
+    split at h
+    · cases h
+    · rename_i dv hd
+      simp only at h
+      split at h
+      · cases h
+      · rename_i hrange
+        split at h
+        · cases h
+        · rename_i c1' hc1
+          split at h
+          · cases h
+          · rename_i hend
+            split at h
+            · rename_i a0' a2' hc0 hc2
+              split at h
+              · rename_i hext
+                cases h
+                refine ⟨by simpa using hinv, hd, by omega, by omega, hc0, hc1, hc2, hext⟩
+              · cases h
+            · cases h
+
+theorem costAt_nat (l : List Val) (i : Int) (h : 0 ≤ i) : costAt l i = l.getD i.toNat .nan := by
+  simp [costAt, h]
+
+/-- every clause named `inside_interval` -/
+def insideOK (P : Params) (x : PixIn) (o : PixOut) (tol : Rat) : Bool :=
+  (clauses P x o tol).all (fun c => c.1 != "inside_interval" || c.2)
+
+/-- **On the grid a refined disparity stays inside the global interval and inside the pixel's own
+    interval** (the costs outside the latter being NaN). -/
+theorem inside_of_onGrid (P : Params) (x : PixIn) (o : PixOut) (tol : ℚ) (hwf : wfPix P x = true)
+    (hg : onGridPix P x = true) (hx : exactHalf P x o = true) : insideOK P x o tol = true := by
+  have W := wfPix_facts P x hwf
+  cases hcls : classify P x with
+  | refine d a0 c1 a2 =>
+    obtain ⟨hinv, hd, hs1, hs2, hc0, -, hc2, -⟩ := classify_refine_inv P x d a0 c1 a2 hcls
+    have hsp : (0 : ℚ) < (P.subpix : ℚ) := by
+      have := W.subpix_pos
+      exact_mod_cast (by omega : 0 < P.subpix)
+    have hlen : (x.costs.length : ℚ) = (P.dmax - P.dmin) * (P.subpix : ℚ) + 1 := by
+      have := W.len; push_cast at this; exact this
+    have hgd : onGrid P d = true := by simpa [onGridPix, hinv, hd] using hg
+    have hq : ((sampleOf P d : Int) : ℚ) = (d - P.dmin) * (P.subpix : ℚ) :=
+      onGrid_floor _ (by simpa [onGrid] using hgd)
+    generalize sampleOf P d = s at *
+    -- d = dmin + s / subpix
+    have hdv : d = P.dmin + (s : ℚ) / (P.subpix : ℚ) := by rw [hq]; field_simp; ring
+    have hinvsp : (1 : ℚ) / (2 * (P.subpix : ℚ)) ≤ 1 / (P.subpix : ℚ) := by
+      rw [div_le_div_iff₀ (by positivity) hsp]; nlinarith
+    -- neighbours are numbers, hence inside the pixel's interval
+    have hi0 : (0 : Int) ≤ s - 1 := by omega
+    have hi2 : (0 : Int) ≤ s + 1 := by omega
+    have hn0 : (s - 1).toNat < x.costs.length := by omega
+    have hn2 : (s + 1).toNat < x.costs.length := by omega
+    have hcast0 : (((s - 1).toNat : Nat) : ℚ) = (s : ℚ) - 1 := by
+      have : (((s - 1).toNat : Nat) : Int) = s - 1 := Int.toNat_of_nonneg hi0
+      have h2 : ((((s - 1).toNat : Nat) : Int) : ℚ) = ((s - 1 : Int) : ℚ) := by rw [this]
+      push_cast at h2; exact h2
+    have hcast2 : (((s + 1).toNat : Nat) : ℚ) = (s : ℚ) + 1 := by
+      have : (((s + 1).toNat : Nat) : Int) = s + 1 := Int.toNat_of_nonneg hi2
+      have h2 : ((((s + 1).toNat : Nat) : Int) : ℚ) = ((s + 1 : Int) : ℚ) := by rw [this]
+      push_cast at h2; exact h2
+    have hin0 : x.pmin ≤ P.dmin + ((s : ℚ) - 1) / (P.subpix : ℚ) := by
+      by_contra hcon
+      have := W.outside (s - 1).toNat hn0 (Or.inl (by rw [hcast0]; exact not_le.mp hcon))
+      rw [costAt_nat _ _ hi0, this] at hc0; cases hc0
+    have hin2 : P.dmin + ((s : ℚ) + 1) / (P.subpix : ℚ) ≤ x.pmax := by
+      by_contra hcon
+      have := W.outside (s + 1).toNat hn2 (Or.inr (by rw [hcast2]; exact not_le.mp hcon))
+      rw [costAt_nat _ _ hi2, this] at hc2; cases hc2
+    have hsub1 : ((s : ℚ) - 1) / (P.subpix : ℚ) = (s : ℚ) / (P.subpix : ℚ) - 1 / (P.subpix : ℚ) := by ring
+    have hadd1 : ((s : ℚ) + 1) / (P.subpix : ℚ) = (s : ℚ) / (P.subpix : ℚ) + 1 / (P.subpix : ℚ) := by ring
+    cases hod : o.d with
+    | nan => simp [exactHalf, hcls, hod] at hx
+    | num d' =>
+      simp only [exactHalf, hcls, hod, Bool.and_eq_true, decide_eq_true_eq] at hx
+      obtain ⟨hx1, hx2⟩ := hx
+      have hA : P.dmin ≤ d' := by linarith [W.pmin_ge]
+      have hB : d' ≤ P.dmax := by linarith [W.pmax_le]
+      have hC : x.pmin ≤ d' := by linarith
+      have hD : d' ≤ x.pmax := by linarith
+      cases hoc : o.coeff with
+      | nan => simp [insideOK, clauses, hcls, hod, hoc, valNum?]
+      | num y =>
+        cases hm : P.method <;>
+          simp [insideOK, clauses, hcls, hod, hoc, valNum?, hm, hA, hB, hC, hD]
+  | invalid => simp [insideOK, clauses, hcls]
+  | illFormed => simp [insideOK, clauses, hcls]
+  | centreNan => simp [insideOK, clauses, hcls]
+  | atIntervalEnd => simp [insideOK, clauses, hcls]
+  | neighbourNan => simp [insideOK, clauses, hcls]
+  | notExtremum => simp [insideOK, clauses, hcls]
+
+/-! ### The pixel theorem -/
+
+theorem spec_of_core_inside (P : Params) (x : PixIn) (o : PixOut) (tol : ℚ)
+    (h1 : coreOK P x o tol = true) (h2 : insideOK P x o tol = true) : specOK P x o tol = true := by
+  simp only [coreOK, insideOK, specOK, Bool.and_eq_true, List.all_eq_true, Bool.or_eq_true, bne_iff_ne, ne_eq,
+    beq_iff_eq] at *
+  intro c hc
+  rcases h1.1 c hc with h | h
+  · exact h
+  · rcases h2 c hc with h' | h'
+    · exact absurd h h'
+    · exact h'
+
+/-- what is assumed of a pixel for the full statement: well-formed, its disparity is a sample (as
+    winner-takes-all leaves it), bit 3 not yet raised (not needed once flags are or-ed) -/
+def pixHyp (P : Params) (x : PixIn) : Bool :=
+  wfPix P x && onGridPix P x && (P.variant.fixOr || bitAt x.flag 3 == 0)
+
+/--
+  **C06, one pixel.**  For every well-formed pixel whose disparity is a sample of the interval and
+  whose bit 3 is clear, `refinePixel` either returns an output satisfying *every* clause of the
+  specification (`invalid_untouched`, `stopped_iff` with its three causes, `only_bit3`,
+  `shift_le_half`, `is_vfit_optimum` / `is_parabola_optimum`, `coeff_is_fitted_cost`,
+  `coeff_not_worse`, `inside_interval`), or the method is the unrepaired `quadratic`, the pixel is to be
+  refined on three equal costs, and the step raises (finding C06-F2: the clause `total` is false there).
+  `tol` is any tolerance ≥ 0 (0 gives the exact statement, then the costs must not differ by less
+  than the 1e-15 guard of vfit.py, or `tol ≥ 1e-15`).
+
+  Full-strength statement (false of the code as it is, see the counterexamples below; true of the
+  repaired code, `refinePixel_spec_repaired`): the same without `bitAt x.flag 3 = 0` and with the right
+  disjunct removed.
+-/
+theorem refinePixel_spec (P : Params) (x : PixIn) (tol : ℚ) (hp : pixHyp P x = true) (htol : 0 ≤ tol)
+    (hnt : P.method = .vfit → tiny ≤ tol ∨ notTinyCosts x.costs = true) :
+    (∃ o, refinePixel P x = .ok o ∧ specOK P x o tol = true) ∨
+    (P.method = .quadratic ∧ P.variant.fixFlat = false ∧ refinePixel P x = .err .zeroDivision
+      ∧ ∃ d c, classify P x = .refine d c c c) := by
+  simp only [pixHyp, Bool.and_eq_true, Bool.or_eq_true, beq_iff_eq] at hp
+  obtain ⟨⟨hwf, hg⟩, hbit⟩ := hp
+  rcases refinePixel_core P x tol hwf (Or.inr (ends_agree_of_onGrid P x hwf hg)) hbit htol hnt with ⟨o, ho, hc⟩ | h
+  · left
+    refine ⟨o, ho, spec_of_core_inside P x o tol hc (inside_of_onGrid P x o tol hwf hg ?_)⟩
+    simp only [coreOK, Bool.and_eq_true] at hc
+    exact hc.2
+  · right; exact h
+
+/-- **C06 for `vfit`**: no exception, every clause. -/
+theorem vfit_pixel_spec (P : Params) (x : PixIn) (tol : ℚ) (hm : P.method = .vfit) (hp : pixHyp P x = true)
+    (htol : 0 ≤ tol) (hnt : tiny ≤ tol ∨ notTinyCosts x.costs = true) :
+    ∃ o, refinePixel P x = .ok o ∧ specOK P x o tol = true := by
+  rcases refinePixel_spec P x tol hp htol (fun _ => hnt) with h | ⟨hq, -⟩
+  · exact h
+  · rw [hm] at hq; cases hq
+
+/-- **C06 for the repaired step** (the three proposed fixes applied): for both methods, whatever the
+    flag word, every well-formed pixel carrying a sample disparity satisfies every clause and the step does
+    not raise. -/
+theorem refinePixel_spec_repaired (P : Params) (x : PixIn) (tol : ℚ)
+    (hV : P.variant = { fixFlat := true, fixOr := true, fixEnds := true })
+    (hwf : wfPix P x = true) (hg : onGridPix P x = true) (htol : 0 ≤ tol)
+    (hnt : P.method = .vfit → tiny ≤ tol ∨ notTinyCosts x.costs = true) :
+    ∃ o, refinePixel P x = .ok o ∧ specOK P x o tol = true := by
+  have hp : pixHyp P x = true := by simp [pixHyp, hwf, hg, hV]
+  rcases refinePixel_spec P x tol hp htol hnt with h | ⟨-, hff, -⟩
+  · exact h
+  · rw [hV] at hff; cases hff
+
+/-- **Off the grid** (a disparity as a filter leaves it), as long as it does not designate the first
+    sample: every clause except `inside_interval` (findings C06-F3 and C06-F5 are exactly the two
+    exceptions). -/
+theorem refinePixel_spec_offGrid (P : Params) (x : PixIn) (tol : ℚ) (hwf : wfPix P x = true)
+    (hoff : ∀ dv, x.d = .num dv → onGrid P dv = false ∧ sampleOf P dv ≠ 0)
+    (hbit : P.variant.fixOr = true ∨ bitAt x.flag 3 = 0) (htol : 0 ≤ tol)
+    (hnt : P.method = .vfit → tiny ≤ tol ∨ notTinyCosts x.costs = true) :
+    (∃ o, refinePixel P x = .ok o ∧ coreOK P x o tol = true) ∨
+    (P.method = .quadratic ∧ P.variant.fixFlat = false ∧ refinePixel P x = .err .zeroDivision
+      ∧ ∃ d c, classify P x = .refine d c c c) :=
+  refinePixel_core P x tol hwf (Or.inr (ends_agree_offGrid P x hwf hoff)) hbit htol hnt
+
+/-- **Off the grid, repaired step**: with the interval-end test made on the sample index the proviso
+    about the first sample disappears: every well-formed pixel, every clause except `inside_interval`
+    (finding C06-F5 is not repaired by the proposed fixes). -/
+theorem refinePixel_core_repaired (P : Params) (x : PixIn) (tol : ℚ)
+    (hV : P.variant = { fixFlat := true, fixOr := true, fixEnds := true })
+    (hwf : wfPix P x = true) (htol : 0 ≤ tol)
+    (hnt : P.method = .vfit → tiny ≤ tol ∨ notTinyCosts x.costs = true) :
+    ∃ o, refinePixel P x = .ok o ∧ coreOK P x o tol = true := by
+  rcases refinePixel_core P x tol hwf (Or.inl (by rw [hV])) (Or.inl (by rw [hV])) htol hnt with h | ⟨-, hff, -⟩
+  · exact h
+  · rw [hV] at hff; cases hff
+
+/-! ### Totality -/
+
+theorem runMethod_total (ff : Bool) (m : Method) (isMax : Bool) (c0 c2 : Val) (c1 : ℚ) :
+    (∃ r, runMethod ff m isMax c0 c1 c2 = .ok r) ∨
+    (m = .quadratic ∧ ff = false ∧ runMethod ff m isMax c0 c1 c2 = .err .zeroDivision) := by
+  cases m
+  · left
+    cases c0 <;> cases c2 <;> simp only [runMethod, vfit] <;> (try split_ifs) <;> exact ⟨_, rfl⟩
+  · cases c0 <;> cases c2 <;> simp only [runMethod, quadratic]
+    · left; exact ⟨_, rfl⟩
+    · left; exact ⟨_, rfl⟩
+    · left; exact ⟨_, rfl⟩
+    · cases ff <;> simp only [Bool.false_eq_true, ↓reduceIte] <;> split_ifs
+      · left; exact ⟨_, rfl⟩
+      · right; simp
+      · left; exact ⟨_, rfl⟩
+      · left; exact ⟨_, rfl⟩
+      · left; exact ⟨_, rfl⟩
+      · left; exact ⟨_, rfl⟩
+
+/-- **`total`, one pixel**: on every well-formed pixel — any cost curve (flat, tied, NaN-holed), any
+    flag word, a disparity on or off the grid, any variant — the loop body returns, except the unrepaired
+    `quadratic` dividing by zero.  In particular no index leaves the cost row (the wrap-around read of
+    index -1 is legal). -/
+theorem refinePixel_total (P : Params) (x : PixIn) (hwf : wfPix P x = true) :
+    (∃ o, refinePixel P x = .ok o) ∨
+    (P.method = .quadratic ∧ P.variant.fixFlat = false ∧ refinePixel P x = .err .zeroDivision) := by
+  have W := wfPix_facts P x hwf
+  by_cases hinv : Flags.isInvalid x.flag = true
+  · left; simp [refinePixel, hinv]
+  · have hinv' : Flags.isInvalid x.flag = false := by simpa using hinv
+    obtain ⟨dv, hd, hp1, hp2⟩ := W.disp hinv'
+    have hd1 : P.dmin ≤ dv := le_trans W.pmin_ge hp1
+    have hd2 : dv ≤ P.dmax := le_trans hp2 W.pmax_le
+    obtain ⟨hpy, hs0, hs1, hs2⟩ := sample_facts P x W dv hd1 hd2
+    generalize sampleOf P dv = s at *
+    have hget : pyGet x.costs s = some (costAt x.costs s) := pyGet_inrange _ _ hs0 (by omega)
+    cases hc1 : costAt x.costs s with
+    | nan => left; simp [refinePixel, hinv', hd, hpy, hget, hc1]
+    | num c1 =>
+      by_cases hne : notAtEnd P x.costs.length dv s = true
+      · -- the right neighbour exists in both variants of the test
+        have h2 : s ≤ (x.costs.length : Int) - 2 := by
+          unfold notAtEnd at hne
+          cases hfe : P.variant.fixEnds
+          · simp only [hfe, Bool.false_eq_true, ↓reduceIte, Bool.and_eq_true, bne_iff_ne, ne_eq] at hne
+            exact hs2 hne.2
+          · simp only [hfe, ↓reduceIte, Bool.and_eq_true, bne_iff_ne, ne_eq] at hne
+            omega
+        have hg2 : pyGet x.costs (s + 1) = some (costAt x.costs (s + 1)) := pyGet_inrange _ _ (by omega) (by omega)
+        have hg0 : ∃ v, pyGet x.costs (s - 1) = some v := by
+          by_cases h0 : s = 0
+          · subst h0; exact pyGet_neg_one _ (by omega)
+          · exact ⟨_, pyGet_inrange _ _ (by omega) (by omega)⟩
+        obtain ⟨v0, hv0⟩ := hg0
+        rcases runMethod_total P.variant.fixFlat P.method P.isMax v0 (costAt x.costs (s + 1)) c1 with
+          ⟨r, hr⟩ | ⟨hq, hff, hr⟩
+        · left; simp [refinePixel, hinv', hd, hpy, hget, hc1, hne, hv0, hg2, hr]
+        · right; exact ⟨hq, hff, by simp [refinePixel, hinv', hd, hpy, hget, hc1, hne, hv0, hg2, hr]⟩
+      · left; simp [refinePixel, hinv', hd, hpy, hget, hc1, hne]
+
+/-! ## The whole map -/
+
+theorem mapRes_all2 {α β : Type} (f : α → Res β) (p : α → β → Bool)
+    (h : ∀ a b, f a = .ok b → p a b = true) : ∀ l r, mapRes f l = .ok r → all2 p l r = true := by
+  intro l
+  induction l with
+  | nil => intro r hr; simp only [mapRes] at hr; cases hr; rfl
+  | cons a l ih =>
+    intro r hr
+    simp only [mapRes] at hr
+    cases hfa : f a with
+    | err e => rw [hfa] at hr; cases hr
+    | ok b =>
+      rw [hfa] at hr
+      cases hl : mapRes f l with
+      | err e => rw [hl] at hr; cases hr
+      | ok bs =>
+        rw [hl] at hr
+        cases hr
+        simp only [all2, Bool.and_eq_true]
+        exact ⟨h a b hfa, ih bs hl⟩
+
+theorem mapRes_ok {α β : Type} (f : α → Res β) : ∀ l, (∀ a ∈ l, ∃ b, f a = .ok b) → ∃ r, mapRes f l = .ok r := by
+  intro l
+  induction l with
+  | nil => intro _; exact ⟨[], rfl⟩
+  | cons a l ih =>
+    intro h
+    obtain ⟨b, hb⟩ := h a (List.mem_cons_self ..)
+    obtain ⟨bs, hbs⟩ := ih (fun a' ha' => h a' (List.mem_cons_of_mem _ ha'))
+    exact ⟨b :: bs, by simp only [mapRes, hb, hbs]⟩
+
+theorem all2_mono {α β : Type} (p q : α → β → Bool) (h : ∀ a b, p a b = true → q a b = true) :
+    ∀ l r, all2 p l r = true → all2 q l r = true := by
+  intro l
+  induction l with
+  | nil => intro r hr; cases r <;> simp_all [all2]
+  | cons a l ih =>
+    intro r hr
+    cases r with
+    | nil => simp [all2] at hr
+    | cons b r =>
+      simp only [all2, Bool.and_eq_true] at hr ⊢
+      exact ⟨h a b hr.1, ih r hr.2⟩
+
+/-- three equal costs to be refined (the situation in which `quadratic` raises) -/
+def flatRefine (P : Params) (x : PixIn) : Bool :=
+  match classify P x with
+  | .refine _ a b c => a == b && b == c
+  | _ => false
+
+/--
+  **C06, the whole map.**  `loop_refinement` on a map of any size whose pixels are well-formed, carry
+  sample disparities and have bit 3 clear — and, for the unrepaired `quadratic`, with no pixel to be
+  refined on three equal costs — returns, and its output satisfies the specification at every pixel.
+-/
+theorem loop_spec (P : Params) (g : List (List PixIn)) (tol : ℚ)
+    (hp : ∀ row ∈ g, ∀ x ∈ row, pixHyp P x = true)
+    (hflat : P.method = .quadratic → P.variant.fixFlat = false → ∀ row ∈ g, ∀ x ∈ row, flatRefine P x = false)
+    (htol : 0 ≤ tol)
+    (hnt : P.method = .vfit → tiny ≤ tol ∨ ∀ row ∈ g, ∀ x ∈ row, notTinyCosts x.costs = true) :
+    ∃ o, loopRefinement P g = .ok o ∧ specGrid P g o tol = true := by
+  have hpix : ∀ row ∈ g, ∀ x ∈ row, ∃ o, refinePixel P x = .ok o ∧ specOK P x o tol = true := by
+    intro row hrow x hx
+    have hnt' : P.method = .vfit → tiny ≤ tol ∨ notTinyCosts x.costs = true := by
+      intro hm
+      rcases hnt hm with h | h
+      · exact Or.inl h
+      · exact Or.inr (h row hrow x hx)
+    rcases refinePixel_spec P x tol (hp row hrow x hx) htol hnt' with h | ⟨hq, hff, -, d, c, hcls⟩
+    · exact h
+    · have := hflat hq hff row hrow x hx
+      simp [flatRefine, hcls] at this
+  have hrows : ∀ row ∈ g, ∃ r, mapRes (refinePixel P) row = .ok r := by
+    intro row hrow
+    exact mapRes_ok _ row (fun x hx => by obtain ⟨o, ho, -⟩ := hpix row hrow x hx; exact ⟨o, ho⟩)
+  obtain ⟨o, ho⟩ := mapRes_ok (mapRes (refinePixel P)) g hrows
+  refine ⟨o, ho, ?_⟩
+  -- row by row, then pixel by pixel; membership is carried along with the row
+  have key : ∀ (rows : List (List PixIn)) (outs : List (List PixOut)),
+      (∀ row ∈ rows, row ∈ g) → mapRes (mapRes (refinePixel P)) rows = .ok outs →
+      all2 (all2 (fun x y => specOK P x y tol)) rows outs = true := by
+    intro rows
+    induction rows with
+    | nil => intro outs _ h; simp only [mapRes] at h; cases h; rfl
+    | cons row rows ih =>
+      intro outs hmem h
+      simp only [mapRes] at h
+      cases hr : mapRes (refinePixel P) row with
+      | err e => rw [hr] at h; cases h
+      | ok r =>
+        rw [hr] at h
+        cases hrs : mapRes (mapRes (refinePixel P)) rows with
+        | err e => rw [hrs] at h; cases h
+        | ok rs =>
+          rw [hrs] at h; cases h
+          simp only [all2, Bool.and_eq_true]
+          refine ⟨?_, ih rs (fun r' hr' => hmem r' (List.mem_cons_of_mem _ hr')) hrs⟩
+          have hrow : row ∈ g := hmem row (List.mem_cons_self ..)
+          -- pixels of this row
+          have keyp : ∀ (xs : List PixIn) (ys : List PixOut), (∀ x ∈ xs, x ∈ row) →
+              mapRes (refinePixel P) xs = .ok ys → all2 (fun x y => specOK P x y tol) xs ys = true := by
+            intro xs
+            induction xs with
+            | nil => intro ys _ h; simp only [mapRes] at h; cases h; rfl
+            | cons x xs ihx =>
+              intro ys hmemx h
+              simp only [mapRes] at h
+              cases hx : refinePixel P x with
+              | err e => rw [hx] at h; cases h
+              | ok y =>
+                rw [hx] at h
+                cases hxs : mapRes (refinePixel P) xs with
+                | err e => rw [hxs] at h; cases h
+                | ok ys' =>
+                  rw [hxs] at h; cases h
+                  simp only [all2, Bool.and_eq_true]
+                  obtain ⟨o', ho', hs'⟩ := hpix row hrow x (hmemx x (List.mem_cons_self ..))
+                  rw [hx] at ho'; cases ho'
+                  exact ⟨hs', ihx ys' (fun x' hx' => hmemx x' (List.mem_cons_of_mem _ hx')) hxs⟩
+          exact keyp row r (fun x hx => hx) hr
+  exact key g o (fun row hrow => hrow) ho
+
+/-- **C06, the whole map, repaired step**: both methods, any flag words, no exception — every map of
+    well-formed pixels carrying sample disparities satisfies the specification at every pixel. -/
+theorem loop_spec_repaired (P : Params) (g : List (List PixIn)) (tol : ℚ)
+    (hV : P.variant = { fixFlat := true, fixOr := true, fixEnds := true })
+    (hp : ∀ row ∈ g, ∀ x ∈ row, wfPix P x = true ∧ onGridPix P x = true)
+    (htol : 0 ≤ tol)
+    (hnt : P.method = .vfit → tiny ≤ tol ∨ ∀ row ∈ g, ∀ x ∈ row, notTinyCosts x.costs = true) :
+    ∃ o, loopRefinement P g = .ok o ∧ specGrid P g o tol = true := by
+  apply loop_spec P g tol _ _ htol hnt
+  · intro row hrow x hx
+    obtain ⟨h1, h2⟩ := hp row hrow x hx
+    simp [pixHyp, h1, h2, hV]
+  · intro _ hff; rw [hV] at hff; cases hff
+
+/-- **`total` for the whole map**: with `vfit`, or with the repaired `quadratic`: any size, any cost
+    curves, any flags, disparities on or off the grid (well-formed pixels only) — the step returns. -/
+theorem loop_total (P : Params) (g : List (List PixIn)) (hm : P.method = .vfit ∨ P.variant.fixFlat = true)
+    (hwf : ∀ row ∈ g, ∀ x ∈ row, wfPix P x = true) : ∃ o, loopRefinement P g = .ok o := by
+  apply mapRes_ok
+  intro row hrow
+  apply mapRes_ok
+  intro x hx
+  rcases refinePixel_total P x (hwf row hrow x hx) with h | ⟨hq, hff, -⟩
+  · exact h
+  · rcases hm with hm | hm
+    · rw [hm] at hq; cases hq
+    · rw [hm] at hff; cases hff
+
+/-! ## Tie to the source, non-vacuity, counterexamples -/
+
+/-- the two constants the model uses are the ones `pandora/constants.py` defines now -/
+theorem flags_tied :
+    stoppedBit = Generated.Constants.PANDORA_MSK_PIXEL_STOPPED_INTERPOLATION
+    ∧ Flags.pixelInvalid = Generated.Constants.PANDORA_MSK_PIXEL_INVALID := by decide
+
+/-- bit 3 of the model is bit 3 -/
+theorem stoppedBit_is_bit3 : stoppedBit = 2 ^ 3 := by decide
+
+def exP (m : Method) (isMax : Bool) : Params := { method := m, isMax := isMax, subpix := 2, dmin := -1, dmax := 1 }
+def exPix (costs : List Val) (d : Rat) (flag : Nat) : PixIn :=
+  { costs := costs, d := .num d, flag := flag, pmin := -1, pmax := 1 }
+
+/-- non-vacuity: a refined pixel (vfit, min), a stopped one, an invalid one satisfy the hypotheses, and
+    the theorem's conclusion is the expected concrete output -/
+example : pixHyp (exP .vfit false) (exPix [.num 5, .num 4, .num 1, .num 2, .num 7] 0 4) = true
+    ∧ classify (exP .vfit false) (exPix [.num 5, .num 4, .num 1, .num 2, .num 7] 0 4) = .refine 0 4 1 2
+    ∧ notTinyCosts [.num 5, .num 4, .num 1, .num 2, .num 7] = true
+    ∧ refinePixel (exP .vfit false) (exPix [.num 5, .num 4, .num 1, .num 2, .num 7] 0 4)
+        = .ok ⟨.num (0 : Rat), .num ((1 : Rat) / 6), 4⟩ := by decide +kernel
+
+example : pixHyp (exP .quadratic true) (exPix [.num 1, .nan, .num 3, .num 2, .num 0] 0 0) = true
+    ∧ classify (exP .quadratic true) (exPix [.num 1, .nan, .num 3, .num 2, .num 0] 0 0) = .neighbourNan
+    ∧ flatRefine (exP .quadratic true) (exPix [.num 1, .nan, .num 3, .num 2, .num 0] 0 0) = false := by
+  decide +kernel
+
+example : pixHyp (exP .quadratic false) (exPix [.num 6, .num 3, .num 1, .num 2, .num 0] 0 2048) = true
+    ∧ flatRefine (exP .quadratic false) (exPix [.num 6, .num 3, .num 1, .num 2, .num 0] 0 2048) = false
+    ∧ refinePixel (exP .quadratic false) (exPix [.num 6, .num 3, .num 1, .num 2, .num 0] 0 2048)
+        = .ok ⟨.num ((23 : Rat) / 24), .num ((1 : Rat) / 12), 2048⟩ := by
+  decide +kernel
+
+/-- **C06-F2** (clause `total` is false of the code): `quadratic` on three equal costs raises, on a
+    pixel that satisfies every hypothesis of `refinePixel_spec`. -/
+theorem quadratic_flat_counterexample :
+    pixHyp (exP .quadratic false) (exPix [.num 3, .num 1, .num 1, .num 1, .num 3] 0 0) = true
+    ∧ refinePixel (exP .quadratic false) (exPix [.num 3, .num 1, .num 1, .num 1, .num 3] 0 0) = .err .zeroDivision := by
+  decide +kernel
+
+/-- **C06-F4** (clauses `stopped_iff`, `only_bit3`): bit 3 already raised, the pixel stops again, `+=`
+    turns 8 into 16: bit 3 cleared, bit 4 raised. -/
+theorem bit3_twice_counterexample :
+    wfPix (exP .vfit false) (exPix [.num 1, .num 4, .num 5, .num 2, .num 7] (-1) 8) = true
+    ∧ onGridPix (exP .vfit false) (exPix [.num 1, .num 4, .num 5, .num 2, .num 7] (-1) 8) = true
+    ∧ refinePixel (exP .vfit false) (exPix [.num 1, .num 4, .num 5, .num 2, .num 7] (-1) 8)
+        = .ok ⟨.num 1, .num (-1), 16⟩
+    ∧ failing (exP .vfit false) (exPix [.num 1, .num 4, .num 5, .num 2, .num 7] (-1) 8) ⟨.num 1, .num (-1), 16⟩ 0
+        = ["stopped_iff", "only_bit3"] := by
+  decide +kernel
+
+/-- **C06-F3** (clause `stopped_iff`): a disparity strictly between the first two samples designates
+    sample 0 — an end of the interval — but is refined, with the cost of `dmax` (index -1 wraps around) as
+    its left neighbour. -/
+theorem offgrid_wraparound_counterexample :
+    wfPix (exP .vfit false) (exPix [.num 1, .num 8, .num 3, .num 5, .num 4] (-7/8) 0) = true
+    ∧ classify (exP .vfit false) (exPix [.num 1, .num 8, .num 3, .num 5, .num 4] (-7/8) 0) = .atIntervalEnd
+    ∧ refinePixel (exP .vfit false) (exPix [.num 1, .num 8, .num 3, .num 5, .num 4] (-7/8) 0)
+        = .ok ⟨.num (-1), .num (-7/8 + (-2/7) / 2), 0⟩
+    ∧ failing (exP .vfit false) (exPix [.num 1, .num 8, .num 3, .num 5, .num 4] (-7/8) 0)
+        ⟨.num (-1), .num (-7/8 + (-2/7) / 2), 0⟩ 0 = ["stopped_iff"] := by
+  decide +kernel
+
+/-- **C06-F5** (clause `inside_interval`): a disparity a quarter of a sample below `dmax`, centre and
+    right neighbour tied: moved by half a sample, past the end of the interval. -/
+theorem offgrid_past_end_counterexample :
+    wfPix (exP .vfit false) (exPix [.num 9, .num 9, .num 5, .num 1, .num 1] (7/8) 0) = true
+    ∧ refinePixel (exP .vfit false) (exPix [.num 9, .num 9, .num 5, .num 1, .num 1] (7/8) 0)
+        = .ok ⟨.num (-1), .num (7/8 + (1/2) / 2), 0⟩
+    ∧ failing (exP .vfit false) (exPix [.num 9, .num 9, .num 5, .num 1, .num 1] (7/8) 0)
+        ⟨.num (-1), .num (7/8 + (1/2) / 2), 0⟩ 0 = ["inside_interval"] := by
+  decide +kernel
+
+
+/-- the repaired model on the inputs of the four counterexamples: the flat triple is left in place
+    without a flag, bit 3 stays bit 3, the off-grid pixel at sample 0 is stopped; the off-grid pixel next
+    to `dmax` still leaves the interval (C06-F5 is not repaired by the proposed fixes) -/
+def exPfixed (m : Method) : Params :=
+  { variant := { fixFlat := true, fixOr := true, fixEnds := true }, method := m, isMax := false, subpix := 2, dmin := -1, dmax := 1 }
+
+theorem repaired_on_counterexamples :
+    refinePixel (exPfixed .quadratic) (exPix [.num 3, .num 1, .num 1, .num 1, .num 3] 0 0) = .ok ⟨.num 1, .num 0, 0⟩
+    ∧ refinePixel (exPfixed .vfit) (exPix [.num 1, .num 4, .num 5, .num 2, .num 7] (-1) 8) = .ok ⟨.num 1, .num (-1), 8⟩
+    ∧ refinePixel (exPfixed .vfit) (exPix [.num 1, .num 8, .num 3, .num 5, .num 4] (-7/8) 0) = .ok ⟨.num 1, .num (-7/8), 8⟩
+    ∧ failing (exPfixed .vfit) (exPix [.num 9, .num 9, .num 5, .num 1, .num 1] (7/8) 0)
+        ⟨.num (-1), .num (7/8 + (1/2) / 2), 0⟩ 0 = ["inside_interval"] := by
+  decide +kernel
+
+
+/-! ## The source as it is now (`Generated/RefineCC.lean`, regenerated from the source text on every run) -/
+
+/-- the literals of vfit.py / quadratic.py are the ones the model uses: the `1e-15` guard, the clamp to [-1, 1] -/
+theorem source_literals :
+    tiny = mkRat (Generated.RefineCC.vfitGuardNum : Int) Generated.RefineCC.vfitGuardDen
+    ∧ (∀ x : Rat, clamp1 x =
+        if x < mkRat Generated.RefineCC.clampLo Generated.RefineCC.clampLoDen
+        then mkRat Generated.RefineCC.clampLo Generated.RefineCC.clampLoDen
+        else if mkRat Generated.RefineCC.clampHi Generated.RefineCC.clampHiDen < x
+        then mkRat Generated.RefineCC.clampHi Generated.RefineCC.clampHiDen else x) := by
+  constructor
+  · decide +kernel
+  · intro x
+    have e1 : mkRat Generated.RefineCC.clampLo Generated.RefineCC.clampLoDen = -1 := by decide +kernel
+    have e2 : mkRat Generated.RefineCC.clampHi Generated.RefineCC.clampHiDen = 1 := by decide +kernel
+    rw [e1, e2]; rfl
+
+/-- which repairs the source carries, read from its text (`+=` or `|=`, the form of the interval-end test,
+    the `alpha == 0` guard) -/
+def sourceVariant : Variant :=
+  { fixFlat := Generated.RefineCC.quadraticFlatGuard, fixOr := Generated.RefineCC.flagUpdateIsOr,
+    fixEnds := Generated.RefineCC.endTestOnIndex }
+
+/-- **C06 for the source as it is now**: `refinePixel_spec` at the variant regenerated from the source. -/
+theorem source_pixel_spec (P : Params) (x : PixIn) (tol : ℚ) (_hP : P.variant = sourceVariant)
+    (hp : pixHyp P x = true) (htol : 0 ≤ tol)
+    (hnt : P.method = .vfit → tiny ≤ tol ∨ notTinyCosts x.costs = true) :
+    (∃ o, refinePixel P x = .ok o ∧ specOK P x o tol = true) ∨
+    (P.method = .quadratic ∧ P.variant.fixFlat = false ∧ refinePixel P x = .err .zeroDivision
+      ∧ ∃ d c, classify P x = .refine d c c c) :=
+  refinePixel_spec P x tol hp htol hnt
+
+end Pandora.C06
